@@ -21,6 +21,7 @@ Step == /\ l <= Len(Ev)
              \/ (a = "C" /\ Compute)
              \/ (a = "F" /\ Foreign(x))
              \/ (a = "M" /\ Remeasure(x))
+             \/ (a = "X" /\ Decoy(x))
         /\ l' = l + 1 /\ UNCHANGED tid
 Finished == l > Len(Ev) /\ UNCHANGED tvars
 TNext == Step \/ Finished
